@@ -1,9 +1,45 @@
 (* C15 - verdicts depend on arrays only through rank, sizes and dtype category.  Finite part: on the dtypes
    the three libraries share, every class table gives the same answer whatever the library (re-proved on
-   every run against the regenerated tables).  The structural part (check / context read only the shape and
-   the dtype verdict) is proofs/Relabel.v when present. *)
-From DL Require Import Base Dtypes DtypeSpec GenDtypes.
+   every run against the regenerated tables).  Structural part (proofs/Relabel.v): a checked call reads its arrays only
+   through their shapes and through the answers of the annotations' dtype tables, so replacing every array by one of
+   the same shape and the same shared dtype from any library changes neither whether the body runs, nor the verdict,
+   nor the report; the value handed back is the body's own.  The same holds at the level of the queue every entry
+   point (function, dataclass, NamedTuple, pydantic: props/C14.v) hands to assert_context. *)
+From DL Require Import Base Lexer Parser Eval Shape Dtypes DtypeSpec GenDtypes Check Context Hints Call Relabel.
 Theorem C15_shared_dtypes_library_independent : forall c d l1 l2, shared d = true ->
   dtype_accepted (impl_dtypes c) l1 d = dtype_accepted (impl_dtypes c) l2 d.
 Proof. intros c d l1 l2. destruct c, d, l1, l2; vm_compute; intros; try reflexivity; discriminate. Qed.
 Redirect "C15.assumptions.1" Print Assumptions C15_shared_dtypes_library_independent.
+
+(* the dtype tables the annotations of a signature may carry: those of the exported classes *)
+Definition class_table (dl:list dtok) : Prop := exists c, dl = impl_dtypes c.
+(* same shape, same shared dtype, any two libraries *)
+Definition same_kind (x y:tensor) : Prop := x_shape x = x_shape y /\ x_dt x = x_dt y /\ shared (x_dt x) = true.
+Lemma same_kind_trel x y : same_kind x y -> trel class_table x y.
+Proof.
+  intros (Hs & Hd & Hsh). split; [exact Hs|]. intros dl [c ->]. rewrite <- Hd.
+  apply C15_shared_dtypes_library_independent. exact Hsh.
+Qed.
+Theorem C15_relabelling_changes_nothing : forall w ps args args' body body',
+  wrapped_ok class_table w -> Forall2 (argrel class_table) args args' -> brel class_table body body' ->
+  fst (run_call w ps args body) = fst (run_call w ps args' body') /\
+  orel class_table (snd (run_call w ps args body)) (snd (run_call w ps args' body')).
+Proof. exact (run_call_relabel class_table). Qed.
+Theorem C15_queue_level : forall q q' c, Forall2 (crel class_table) q q' -> assert_context c q = assert_context c q'.
+Proof. exact (assert_context_eq class_table). Qed.
+(* the hypotheses are met: a numpy and a torch float32 array of one shape are related, in an argument and in a tuple *)
+Example ex15_related :
+  let x := {| x_lib := LNumpy; x_dt := KF32; x_shape := [2;0;3]%Z |} in
+  let y := {| x_lib := LTorch; x_dt := KF32; x_shape := [2;0;3]%Z |} in
+  same_kind x y /\ argrel class_table ("a"%string, VArr x) ("a"%string, VArr y) /\
+  argrel class_table ("t"%string, VTuple [VArr x; VNone]) ("t"%string, VTuple [VArr y; VNone]) /\
+  class_table (impl_dtypes CFloat).
+Proof.
+  cbv zeta. assert (H: same_kind {| x_lib := LNumpy; x_dt := KF32; x_shape := [2;0;3]%Z |} {| x_lib := LTorch; x_dt := KF32; x_shape := [2;0;3]%Z |})
+    by (repeat split; reflexivity).
+  split; [exact H|]. split; [split; [reflexivity|exact (same_kind_trel _ _ H)]|].
+  split; [split; [reflexivity|]; simpl; constructor; [exact (same_kind_trel _ _ H)|constructor; [exact I|constructor]]|].
+  exists CFloat. reflexivity.
+Qed.
+Redirect "C15.assumptions.2" Print Assumptions C15_relabelling_changes_nothing.
+Redirect "C15.assumptions.3" Print Assumptions C15_queue_level.
